@@ -516,4 +516,24 @@ theorem tableRowsIn_groupRows (f : OdsFeatures) (rows : List (List Str × Nat)) 
       one a, one b, one c, hrest]
     simp only [List.append_nil, List.cons_append, List.nil_append]
 
+/-- decoding the cells of a row does not look at the cells' tags: a covered cell counts like a cell -/
+theorem cells_retag (tag : String) (attrs : List (String × Str)) (text : Option Str) (children : List Xml) (tail : Option Str)
+    (rest : List Xml) (tag' : String) :
+    odsRow.cells (.node tag attrs text children tail :: rest) = odsRow.cells (.node tag' attrs text children tail :: rest) := by
+  rw [odsRow.cells, odsRow.cells]
+  rfl
+
+theorem cells_cons_congr (a : Xml) (x y : List Xml) (h : odsRow.cells x = odsRow.cells y) :
+    odsRow.cells (a :: x) = odsRow.cells (a :: y) := by
+  rw [odsRow.cells, odsRow.cells, h]
+
+theorem cells_coverCells : ∀ cs : List Xml, odsRow.cells (coverCells cs) = odsRow.cells cs := by
+  intro cs
+  fun_induction coverCells cs with
+  | case1 a tag attrs text children tail rest ih =>
+    apply cells_cons_congr
+    rw [cells_retag "table:covered-table-cell" attrs text children tail (coverCells rest) tag]
+    exact cells_cons_congr _ _ _ ih
+  | case2 cs h => rfl
+
 end Cutplace
